@@ -1133,6 +1133,26 @@ def _oracle_pair(p, frclim, ode, cb):
 
         # --- f = 0 and f -> 0: rigid-body mass (statically determinate interface) ---------
         if p["nrb"] == r:
+            # `am_low_frequency_expansion`, restated with numpy at EVERY frequency of the pair:
+            # AM(W) = M_rb + W^2 (M_bi + psi' M_ii) (K_ii + iW B_ii - W^2 M_ii)^-1 (M_ib + M_ii psi)
+            for nm, X, phi, cx in (("source", S, p["phis"], cs), ("load", L, p["phil"], cl)):
+                if X[0].shape[0] == r:
+                    continue
+                psi = phi[r:]
+                Mx, Bx, Kx = X
+                mrb = phi.T @ Mx @ phi
+                mcbi = Mx[:r, r:] + psi.T @ Mx[r:, r:]
+                mcib = Mx[r:, :r] + Mx[r:, r:] @ psi
+                ref = np.empty((r, len(freq), r), complex)
+                cii = np.empty(len(freq))
+                for j, f in enumerate(freq):
+                    O = 2 * np.pi * f
+                    Zii = _Z(Mx[r:, r:], Bx[r:, r:], Kx[r:, r:], O)
+                    ref[:, j, :] = mrb + O ** 2 * (mcbi @ np.linalg.solve(Zii, mcib))
+                    cii[j] = np.linalg.cond(Zii)
+                skipped += _chk(fails, "am-low-frequency-expansion-" + tag,
+                                "calcAM != M_rb + W^2 (M_bi + psi' M_ii) Z_ii^-1 (M_ib + M_ii psi) (%s)" % nm,
+                                dict(inp, route=nm), routes[nm + "-drm-default"][0], ref, np.maximum(cx, cii), 1)
             for nm, X, phi in (("source", S, p["phis"]), ("load", L, p["phil"])):
                 mrb = phi.T @ X[0] @ phi  # phi[b] = I
                 ref = mrb[:, None, :] + 0j
@@ -1158,6 +1178,232 @@ def _oracle_pair(p, frclim, ode, cb):
             R0 = np.diag(np.linalg.solve(ms + ml, ms))[:, None] + 0j
             _chk(fails, "ntfl-R-at-zero-frequency-" + tag, "R(f=0) != diag((ms+ml)^-1 ms)", inp, nt0.R, R0, np.ones(1), 1, tol=1e-8)
     return fails, skipped
+
+
+
+def _cbtf_check(inp, cb):
+    """cb.cbtf judged on its public API with plain numpy: the returned arrays satisfy the Craig-Bampton equations in
+    model order (k without its b-q / q-b blocks), `a` on the b-set is the enforced one, v = iW d, a = -W^2 d; a call with a
+    warm `save` (left by a call with another acceleration and another frequency vector) returns the same"""
+    M, B, K = (_dec(inp[k]) for k in ("M", "B", "K"))
+    bset = np.array(inp["bset"], dtype=int)
+    freq = np.array(inp["freq"], dtype=float)
+    a_in = _dec(inp["a"])
+    n_ = M.shape[0]
+    r = len(bset)
+    nf = len(freq)
+    q = np.setdiff1d(np.arange(n_), bset)
+    fam = "multi-dof" if r > 1 else "single-dof"
+    fails = []
+    with warnings.catch_warnings():
+        warnings.simplefilter("ignore")
+        tf = cb.cbtf(M, B, K, a_in, freq, bset)
+        save = {}
+        cb.cbtf(M, B, K, np.arange(1.0, r + 1), np.linspace(0.7, 91.0, nf + 3), bset, save)
+        tw = cb.cbtf(M, B, K, a_in, freq, bset, save)
+    a = np.asarray(a_in, dtype=complex)
+    if a.ndim == 1:
+        a = a[:, None]
+    if a.shape[1] == 1:
+        a = np.repeat(a, nf, axis=1)
+    if q.size == 0:
+        acc, dis, vel = (np.zeros((n_, nf), complex) for _ in range(3))
+        acc[bset], dis[bset], vel[bset] = tf.a, tf.d, tf.v  # this branch returns a, d, v in b-set order
+    else:
+        acc, dis, vel = np.asarray(tf.a), np.asarray(tf.d), np.asarray(tf.v)
+    if acc.shape != (n_, nf) or np.asarray(tf.frc).shape != (r, nf):
+        return {"family": "cbtf-output-shape-" + fam, "what": "shapes of the returned arrays", "input": inp,
+                "observed": [list(np.shape(tf.frc)), list(np.shape(tf.a))], "required": [[r, nf], [n_, nf]]}
+    Kcb = K.astype(complex).copy()
+    Kcb[np.ix_(bset, q)] = 0
+    Kcb[np.ix_(q, bset)] = 0
+    cond = np.ones(nf)
+    if q.size:
+        cond = np.maximum(_pv_cond({"M": M, "bset": bset, "freq": freq, "B": B, "K": K}), _kappa_qq(M, B, K, bset, freq))
+    O = 2 * np.pi * freq
+    rhs = np.zeros((n_, nf), complex)
+    rhs[bset] = tf.frc
+    res = M @ acc + B @ vel + Kcb @ dis - rhs
+    for j in range(nf):
+        if not cond[j] <= CONDMAX:
+            continue
+        lim = TOL * max(1.0, cond[j] / 100)
+        sc = max(np.abs(M @ acc[:, j]).max(), np.abs(B @ vel[:, j]).max(), np.abs(Kcb @ dis[:, j]).max(), 1e-300)
+        checks = [
+            ("cbtf-outputs-vs-cb-equations-" + fam, "m a + b v + k_cb d != (frc on the b-set rows, 0 on the q-set rows)",
+             np.abs(res[:, j]).max() / sc),
+            ("cbtf-enforced-acceleration-" + fam, "returned b-set acceleration is not the enforced one",
+             np.abs(acc[bset, j] - a[:, j]).max() / max(np.abs(a[:, j]).max(), 1e-300)),
+            ("cbtf-velocity-" + fam, "v != i W d", np.abs(vel[:, j] - 1j * O[j] * dis[:, j]).max()
+             / max(np.abs(vel[:, j]).max(), np.abs(O[j] * dis[:, j]).max(), 1e-300)),
+        ]
+        if O[j] != 0:
+            checks.append(("cbtf-acceleration-" + fam, "a != -W^2 d", np.abs(acc[:, j] + O[j] ** 2 * dis[:, j]).max()
+                           / max(np.abs(acc[:, j]).max(), 1e-300)))
+        else:
+            checks.append(("cbtf-zero-frequency-" + fam, "at f = 0: q-set acceleration, velocity, b-set displacement must vanish",
+                           max(np.abs(acc[q, j]).max() if q.size else 0.0, np.abs(vel[:, j]).max(), np.abs(dis[bset, j]).max())))
+            checks.append(("cbtf-zero-frequency-force-" + fam, "at f = 0: frc != m[bset][:, bset] a",
+                           np.abs(tf.frc[:, j] - M[np.ix_(bset, bset)] @ a[:, j]).max()
+                           / max(np.abs(tf.frc[:, j]).max(), 1e-300)))
+        for family, what, e in checks:
+            _STATS[family.rsplit("-", 2)[0]] = max(_STATS.get(family.rsplit("-", 2)[0], 0.0), float(e / lim))
+            if not e <= lim:
+                fails.append({"family": family, "what": what, "input": dict(inp, freq_index=j),
+                              "observed": {"relerr": float(e)}, "required": {"tol": float(lim), "cond": float(cond[j])}})
+    for name in ("frc", "a", "d", "v"):
+        x, y = np.asarray(getattr(tf, name)), np.asarray(getattr(tw, name))
+        if x.shape != y.shape or not np.allclose(x, y, rtol=1e-12, atol=1e-300 + 1e-12 * np.abs(x).max()):
+            fails.append({"family": "cbtf-warm-save-differs-" + fam,
+                          "what": "cbtf with the `save` dictionary left by an earlier call on the same model (other `a`, other "
+                                  "frequency vector) returns another `%s` than a cold call" % name,
+                          "input": inp, "observed": _enc(y), "required": _enc(x)})
+            break
+    return fails[0] if fails else None
+
+
+def _oracle_cbtf(ctx, rng, cb):
+    for it in range(ctx.pick(60, 600)):
+        r = int(rng.integers(1, 5))
+        nq = 0 if it % 7 == 2 else int(rng.integers(1, 5))
+        n_ = r + nq
+        eps = 0.0 if it % 2 else 0.1
+        M = _rand_spd(rng, n_, 0.5, 4.0) + eps * rng.standard_normal((n_, n_))
+        w = 2 * np.pi * 30
+        K = (_rand_spd(rng, n_, 0.2, 4.0) + eps * rng.standard_normal((n_, n_))) * w * w
+        B = (_rand_spd(rng, n_, 0.1, 2.0) + eps * rng.standard_normal((n_, n_))) * (0.04 * w)
+        bset = rng.permutation(n_)[:r]
+        nf = int(rng.integers(1, 4))
+        freq = np.sort(rng.uniform(1.0, 120.0, nf))
+        if it % 3 == 1:
+            freq[0] = 0.0
+        a = rng.standard_normal(r) if it % 2 else rng.standard_normal((r, nf)) + 1j * rng.standard_normal((r, nf))
+        inp = {"kind": "cbtf", "M": _enc(M), "B": _enc(B), "K": _enc(K), "bset": [int(i) for i in bset], "freq": freq.tolist(),
+               "a": _enc(a), "save": "none"}
+        f = _replay_input(inp, None, None)
+        ctx.count("oracle:cbtf")
+        if f:
+            ctx.failures.append(f)
+
+
+def _relations_check(inp, frclim):
+    """the relation checks on recorded arrays; returns a list of failure dicts"""
+    SAM, LAM, As, P, Q = (_dec(inp[k]) for k in ("SAM", "LAM", "As", "P", "Q"))
+    SAM2, LAM2, As2 = (_dec(inp[k]) for k in ("SAM2", "LAM2", "As2"))
+    j0 = inp["j0"]
+    b, nf, _ = SAM.shape
+    freq = np.arange(nf) + 1.0
+    fam = "multi-dof" if b > 1 else "single-dof"
+    cnd = max(np.linalg.cond(SAM[:, j] + LAM[:, j]) for j in range(nf))
+    lim = 1e-10 * cnd
+    out = []
+    with warnings.catch_warnings():
+        warnings.simplefilter("ignore")
+        o = frclim.ntfl(SAM.copy(), LAM.copy(), As.copy(), freq)
+        sw = frclim.ntfl(LAM.copy(), SAM.copy(), As.copy(), freq)
+        cq = np.linalg.cond(Q) * np.linalg.cond(P)
+        SAMc = np.einsum("ia,ajb,bk->ijk", P, SAM, Q)
+        LAMc = np.einsum("ia,ajb,bk->ijk", P, LAM, Q)
+        oc = frclim.ntfl(SAMc, LAMc, np.linalg.solve(Q, As), freq)
+        c_, d_ = 1000.0, 9.80665
+        osc = frclim.ntfl(c_ * SAM, c_ * LAM, d_ * As, freq)
+        o2 = frclim.ntfl(SAM2.copy(), LAM2.copy(), As2.copy(), freq)
+
+    def rel(x, y):
+        return float(np.abs(x - y).max() / max(np.abs(y).max(), 1e-300))
+
+    checks = [
+        ("ntfl-reciprocity-R-" + fam, "R(source, load) + R(load, source) != 1", rel(o.R + sw.R, np.ones_like(o.R)), lim),
+        ("ntfl-reciprocity-A-" + fam, "A(source, load) + A(load, source) != As", rel(o.A + sw.A, As), lim),
+        ("ntfl-reciprocity-F-" + fam, "F changes when source and load are exchanged", rel(sw.F, o.F), lim),
+        ("ntfl-congruence-A-" + fam, "A in new boundary coordinates != Q^-1 A", rel(oc.A, np.linalg.solve(Q, o.A)), lim * cq),
+        ("ntfl-congruence-F-" + fam, "F in new boundary coordinates != P F", rel(oc.F, P @ o.F), lim * cq),
+        ("ntfl-congruence-TAM-" + fam, "TAM in new boundary coordinates != P TAM Q",
+         rel(oc.TAM, np.einsum("ia,ajb,bk->ijk", P, o.TAM, Q)), lim * cq),
+        ("ntfl-scaling-R-" + fam, "R depends on the mass / acceleration units", rel(osc.R, o.R), lim),
+        ("ntfl-scaling-A-" + fam, "A does not scale with the acceleration unit", rel(osc.A, d_ * o.A), lim),
+        ("ntfl-scaling-F-" + fam, "F does not scale with mass unit x acceleration unit", rel(osc.F, c_ * d_ * o.F), lim),
+    ]
+    for family, what, e, l_ in checks:
+        key = family.rsplit("-", 2)[0]
+        _STATS[key] = max(_STATS.get(key, 0.0), e / l_)
+        if not e <= l_:
+            out.append({"family": family, "what": what, "input": inp, "observed": {"relerr": e}, "required": {"tol": l_}})
+    same = all(np.array_equal(np.asarray(getattr(o2, nme))[:, j0], np.asarray(getattr(o, nme))[:, j0])
+               for nme in ("A", "F", "R", "TAM"))
+    if not same:
+        out.append({"family": "ntfl-pointwise-" + fam,
+                    "what": "column j of the outputs changes when OTHER frequency columns of the inputs change",
+                    "input": inp, "observed": "different bits", "required": "identical"})
+    return out
+
+
+def _oracle_ntfl_relations(ctx, rng, frclim):
+    """relations of ntfl on user-supplied apparent-mass arrays, on the real code only: exchange of source and load
+    (`nt_reciprocity`), change of boundary coordinates (`ntfl_congruence`), units (`ntfl_scaling`), frequency-by-frequency
+    independence (`ntfl_pointwise`, bit for bit)"""
+    for it in range(ctx.pick(60, 600)):
+        b = int(rng.integers(1, 6))
+        nf = int(rng.integers(2, 5))
+
+        def rc(*sh):
+            return rng.standard_normal(sh) + 1j * rng.standard_normal(sh)
+
+        SAM = rc(b, nf, b) + (2.0 * b) * np.eye(b)[:, None, :]
+        LAM = rc(b, nf, b) + (1.0 * b) * np.eye(b)[:, None, :]
+        As = rc(b, nf)
+        if max(np.linalg.cond(SAM[:, j] + LAM[:, j]) for j in range(nf)) > 1e4:
+            ctx.skip("oracle ntfl relations: cond(SAM+LAM) > 1e4")
+            continue
+        Q = np.eye(b) + 0.3 * rng.standard_normal((b, b))
+        P = Q.T if it % 2 else np.eye(b) + 0.3 * rng.standard_normal((b, b))
+        # pointwise: every OTHER frequency column replaced by something else
+        j0 = int(rng.integers(0, nf))
+        SAM2, LAM2, As2 = rc(b, nf, b) + 3 * b * np.eye(b)[:, None, :], rc(b, nf, b) + 2 * b * np.eye(b)[:, None, :], rc(b, nf)
+        SAM2[:, j0, :], LAM2[:, j0, :], As2[:, j0] = SAM[:, j0, :], LAM[:, j0, :], As[:, j0]
+        inp = {"kind": "ntfl-relations", "SAM": _enc(SAM), "LAM": _enc(LAM), "As": _enc(As), "P": _enc(P), "Q": _enc(Q),
+               "SAM2": _enc(SAM2), "LAM2": _enc(LAM2), "As2": _enc(As2), "j0": j0}
+        ctx.failures.extend(_relations_check(inp, frclim))
+        ctx.count("oracle:ntfl-relations")
+
+
+def _oracle_routes(ctx, rng, frclim, ode):
+    """`routes_agree_general` on the real code: recovery-matrix route with the selection matrix of a scattered, unordered
+    b-set == Schur complement of the FULL impedance (no Craig-Bampton form), through FreqDirect and SolveUnc"""
+    for it in range(ctx.pick(40, 400)):
+        r = int(rng.integers(1, 5))
+        nq = int(rng.integers(1, 5))
+        n_ = r + nq
+        eps = 0.0 if it % 2 else 0.1
+        M = _rand_spd(rng, n_, 0.5, 4.0) + eps * rng.standard_normal((n_, n_))
+        w = 2 * np.pi * 30
+        K = (_rand_spd(rng, n_, 0.2, 4.0) + eps * rng.standard_normal((n_, n_))) * w * w
+        B = (_rand_spd(rng, n_, 0.1, 2.0) + eps * rng.standard_normal((n_, n_))) * (0.04 * w)
+        bset = rng.permutation(n_)[:r]
+        q = np.setdiff1d(np.arange(n_), bset)
+        T = np.zeros((r, n_))
+        T[np.arange(r), bset] = 1.0
+        freq = np.sort(rng.uniform(1.0, 120.0, 3))
+        ref = np.empty((r, 3, r), complex)
+        cond = np.empty(3)
+        for j, f in enumerate(freq):
+            O = 2 * np.pi * f
+            D = M + B / (1j * O) - K / O ** 2
+            Dqq = D[np.ix_(q, q)]
+            ref[:, j, :] = D[np.ix_(bset, bset)] - D[np.ix_(bset, q)] @ np.linalg.solve(Dqq, D[np.ix_(q, bset)])
+            cond[j] = max(np.linalg.cond(Dqq), np.linalg.cond(D), np.linalg.cond(ref[:, j, :]))
+        fam = "multi-dof" if r > 1 else "single-dof"
+        route = "freqdirect" if it % 2 == 0 else "solveunc"
+        inp = {"kind": "calcAM-drm", "route": route, "M": _enc(M), "B": _enc(B), "K": _enc(K), "T": _enc(T),
+               "freq": freq.tolist(), "bset": [int(i) for i in bset]}
+        fails = []
+        am = _calc_am(frclim, ode, {"M": M, "B": B, "K": K, "T": T, "freq": freq, "route": route})
+        _chk(fails, "calcAM-drm-%s-vs-schur-complement-%s" % (route, fam),
+             "calcAM (recovery matrix selecting a scattered b-set) != Schur complement of the full impedance onto the b-set",
+             inp, am, ref, cond, 1)
+        ctx.count("oracle:routes")
+        for t in fails:
+            ctx.failures.append(_fdict(t))
 
 
 def _oracle_general_T(p, rng, frclim):
@@ -1221,6 +1467,10 @@ def _replay_input_raw(inp, frclim, ode):
             _chk(fails, fam % "R", "R != diag((SAM+LAM)^-1 SAM)", inp, o.R, R, cnd, 1)
             _chk(fails, fam % "TAM", "TAM != SAM + LAM", inp, o.TAM, SAM + LAM, np.ones(nf), 1)
             return _fdict(fails[0]) if fails else None
+        if kind == "cbtf":
+            from pyyeti import cb as _cb
+
+            return _cbtf_check({k: v for k, v in inp.items() if k != "freq_index"}, _cb)
         if kind == "calcAM-drm":
             c = {k: _dec(inp[k]) for k in ("M", "B", "K", "T")}
             c["freq"] = np.array(inp["freq"])
@@ -1283,6 +1533,10 @@ def _replay_input(inp, frclim, ode):
         import traceback
 
         r = len(inp["bset"]) if "bset" in inp else (np.shape(inp.get("T", inp.get("SAM", {"re": [0]}))["re"])[0])
+        if inp.get("kind") == "cbtf":
+            return {"family": "exception-%s-cbtf-%s" % (type(e).__name__, "multi-dof" if r > 1 else "single-dof"),
+                    "what": "cb.cbtf raised %s: %s" % (type(e).__name__, e), "input": inp,
+                    "observed": traceback.format_exc()[-700:], "required": "values"}
         return {"family": "exception-%s-%s-%s" % (type(e).__name__, inp.get("kind"), "multi-dof" if r > 1 else "single-dof"),
                 "what": "%s raised %s: %s" % (inp.get("kind"), type(e).__name__, e), "input": inp,
                 "observed": traceback.format_exc()[-700:], "required": "values"}
@@ -1347,6 +1601,9 @@ def search(ctx, hints):
                                                   "sorted" if not np.any(np.diff(bset) < 0) else "unsorted"))
         if f:
             ctx.failures.append(f)
+    _oracle_cbtf(ctx, rng, cb)
+    _oracle_ntfl_relations(ctx, rng, frclim)
+    _oracle_routes(ctx, rng, frclim, ode)
     ctx.extra["oracle_worst_error_over_tolerance"] = {k: float("%.3g" % v) for k, v in sorted(_STATS.items())}
     if skipped:
         ctx.skip("oracle: frequency outside the conditioning domain (cond > 1e5)", skipped)
@@ -1357,8 +1614,12 @@ def replay(ctx, data):
     f = data["failure"]
     inp = f["input"]
     kind = inp.get("kind")
-    if kind in ("ntfl-arrays", "calcAM-drm", "calcAM-pv"):
+    if kind in ("ntfl-arrays", "calcAM-drm", "calcAM-pv", "cbtf"):
         return _replay_input(inp, frclim, ode)
+    if kind == "ntfl-relations":
+        fails = _relations_check(inp, frclim)
+        same = [d for d in fails if d["family"] == f["family"]]
+        return (same or fails or [None])[0]
     if kind in ("pair", "pair-dense-T"):
         S = tuple(_dec(inp[k]) for k in ("Ms", "Bs", "Ks"))
         L = tuple(_dec(inp[k]) for k in ("Ml", "Bl", "Kl"))
